@@ -1429,14 +1429,20 @@ func FunExpr(query *Query, current Map, expr *sqlparser.FuncExpr, opts ...ExprOp
 				return nil, e
 			}
 			var rs any
-			var err error
 			query.wg.Add(1)
 			go func() {
 				defer query.wg.Done()
 				defer query.reportPanic()
-				rs, err = function(query, current, nil, slice)
+				value, err := function(query, current, nil, slice)
+				if err != nil {
+					if query.options.errors != nil {
+						query.options.errors(err)
+					}
+					return
+				}
+				rs = value
 			}()
-			return &rs, err
+			return &rs, nil
 		}
 	case "spin":
 		{
